@@ -120,6 +120,7 @@ class EnableDisableMixin(ModeDevice, metaclass=abc.ABCMeta):
     def device_loaded_in_mode(self, mode: "Mode", player) -> None:
         """Check enable on mode start."""
         super().device_loaded_in_mode(mode, player)
+        was_enabled = self.enabled
         self.player = player
         if self.persist_enabled:
             if not player.is_player_var(self._player_var_name_for_enable):
@@ -128,13 +129,17 @@ class EnableDisableMixin(ModeDevice, metaclass=abc.ABCMeta):
                 self._enable()
         else:
             self._load_enable_based_on_config_default()
+        # the enable state now is the one of this mode run / player: tell placeholder subscribers
+        self.notify_virtual_change("enabled", was_enabled, self.enabled)    # type: ignore
 
     def device_removed_from_mode(self, mode) -> None:
         """Forget enable state."""
         del mode
+        was_enabled = self.enabled
         self._disable()
         self.player = None
         self._enabled = None
+        self.notify_virtual_change("enabled", was_enabled, self.enabled)    # type: ignore
 
 
 @DeviceMonitor("enabled")
